@@ -59,6 +59,11 @@ ASSUMPTIONS = [
     'NOT YET CONVERGED is generated for the energy-integrated line of score blocks only (the only '
     'place where the covered layouts show it), for all time steps of a score at once',
     'error oracle: |error - value*sigma%*0.01| <= 2 ulp; values and bins are compared exactly',
+    'all cases of one process write their files under the same path (scratch directory named after the '
+    'process, emptied after each case): consecutive cases form the history parse / rewrite the file / '
+    'parse again; a failure that depends on the previous case shows as a burst of unrelated buckets and '
+    'does not reproduce from its replay file alone (replay the file twice in one process, second time '
+    'after another case)',
     'Apollo3: a result of size NG is expected with shape (NG,) whatever nbAnisotropy says; a (1,)-shaped '
     'stored scalar is expected back as a scalar from the Reader (documented for KEFF-like values and '
     'asserted by the test-suite for local values)',
@@ -86,6 +91,16 @@ SHIPPED_AP3 = ['AP3F_MiniCoeur_Kinetics_MINOS.hdf', 'Hexarot_Kinetic.hdf', 'Most
 
 # --------------------------------------------------------------------------
 # generation
+
+def _workdir():
+    """Scratch directory of this process: the SAME path for every case it runs (removed after each
+    case), so that consecutive cases put different contents under one file name -- the history
+    'parse, rewrite the file, parse again' that a cache keyed by path would get wrong."""
+    path = os.path.join(TMPROOT, f'c10-{os.getpid()}')
+    shutil.rmtree(path, ignore_errors=True)
+    os.makedirs(path)
+    return path
+
 
 @st.composite
 def _t4_zone(draw):
@@ -515,7 +530,7 @@ def _run_t4_truth(out, truth, accesses):
     out.nontrivial = bool(feats & {'editions>=2', 'e-decreasing', 't-decreasing', 'negative', 'zero',
                                    'not-converged'})
     text = t4emit.emit(truth)
-    tmpdir = tempfile.mkdtemp(prefix='c10-', dir=TMPROOT)
+    tmpdir = _workdir()
     try:
         path = os.path.join(tmpdir, 'listing.res')
         with open(path, 'w', encoding='utf-8') as fil:
@@ -579,7 +594,7 @@ def _run_t4file(case, out):
     except Exception as exc:
         out.failures.append(exc_failure('t4_shipped_raises', exc, case['file']))
         return
-    tmpdir = tempfile.mkdtemp(prefix='c10-', dir=TMPROOT)
+    tmpdir = _workdir()
     try:
         for batch in numbers:
             try:
@@ -754,7 +769,7 @@ def _run_ap3_path(out, path, tag, err0=False):
 def _run_ap3(case, out):
     out.labels.append('ap3')
     out.labels.append('ap3:std' if case['layout'] == 'std' else 'ap3:user')
-    tmpdir = tempfile.mkdtemp(prefix='c10-', dir=TMPROOT)
+    tmpdir = _workdir()
     try:
         path = os.path.join(tmpdir, 'file.hdf')
         ap3gen.write(case, path)
